@@ -657,6 +657,11 @@ class Executor(ExprMixin, CallMixin):
                 w.data = [self.havoc_like(st, x, f"h{ref}") for x in o.data]
             else:
                 st.heap[ref] = HeapObj("unk", None, o.cls, False)
+        for g in (spec.havoc if spec is not None else ()):
+            if callable(g):
+                g(self, st)
+            elif g in st.ghost and z3.is_expr(st.ghost[g]):
+                st.ghost[g] = z3.Const(fresh_name(f"ghost!{g}"), st.ghost[g].sort())
 
     def s_For(self, s, st):
         outs = []
